@@ -1,8 +1,9 @@
 import corr_construct
 import corr_transform
+import oracle_influence
 import oracle_misc
 
-SPEC = {'statement': "blank_int / blank_float / blank_text (a blank field - whitespace then NUL padding - reads -1 / nan / ''), no derived attribute (provenance trees apply the identity to every nullable field), padding_inert: two records that parse and agree on the bytes of the live fields give equal outputs (leaf_window + provenance)", 'rule': 'oracle: random subsets of nullable fields blanked (up to all), each nullable leader/volume/header field blanked individually (quick samples 40, thorough all), every spare/blank/reserved area overwritten with random content of its class and the bit-exact tree fingerprint compared; distinct = distinct blanked field / seed', 'partial': "line records (context-dependent microsecond stamp) and dynamic-count records: padding inertness by oracle only; bool(-1)=True for blank flag columns is exempt by the property's wording", 'assumptions': []}
+SPEC = {'statement': "blank_int / blank_float / blank_text (a blank field - whitespace then NUL padding - reads -1 / nan / ''), no derived attribute (provenance trees apply the identity to every nullable field), padding_inert: two records that parse and agree on the bytes of the live fields give equal outputs (leaf_window + provenance)", 'rule': 'oracle: random subsets of nullable fields blanked (up to all), each nullable leader/volume/header field blanked individually (quick samples 40, thorough all), every spare/blank/reserved area overwritten with random content of its class and the bit-exact tree fingerprint compared; byte influence map: for byte k of the volume directory, leader, image descriptor and line prefixes of a level-1.1 and a level-1.5 product (quick: 320 sampled positions; thorough: every position) the byte is changed within its character class, the product re-opened, and the set of changed output leaves compared with the one the layout + provenance spec predict (padding: nothing changes and the open succeeds; live field: only the leaves derived from it); distinct = distinct blanked field / seed / byte position', 'partial': "line records (context-dependent microsecond stamp) and dynamic-count records: padding inertness by oracle only; bool(-1)=True for blank flag columns is exempt by the property's wording", 'assumptions': []}
 
 
 def corr_layouts(seed, tier):
@@ -17,8 +18,12 @@ def oracle_c20(seed, tier):
     return oracle_misc.check_c20(seed, tier)
 
 
+def oracle_influence_map(seed, tier):
+    return oracle_influence.check(seed, tier)
+
+
 def checks(tier):
-    return [corr_layouts, corr_transformers, oracle_c20]
+    return [corr_layouts, corr_transformers, oracle_c20, oracle_influence_map]
 
 
 def replay(payload):
